@@ -389,7 +389,7 @@ func c10Account(st *Stats, s EncSpec, accepted bool, v verdict, boundary bool) {
 		acc = "accepted"
 	}
 	st.Class(fmt.Sprintf("%s %s (%s)", s.Fam, acc, v))
-	st.Cover("entry_points", s.label())
+	st.Cover("entry_points", s.Label())
 	if boundary || !accepted {
 		st.NonTrivial(c10Hash(s))
 	}
